@@ -339,7 +339,7 @@ def prepare_a2c_batch(
     values = value_function(flat_obs).squeeze()
     values = values.reshape(T, N)
 
-    next_values_bootstrap = value_function(last_observation).squeeze()
+    next_values_bootstrap = value_function(last_observation).squeeze(axis=-1)
     bootstrap_expanded = jnp.expand_dims(next_values_bootstrap, 0)
 
     all_next_values = jnp.concatenate([values[1:], bootstrap_expanded], axis=0)
